@@ -270,3 +270,5 @@ def run_thorough(ctx):
     # the cfg(windows) sibling implementation, analysed on the windows-msvc build
     import winrules
     winrules.c02_routing(ctx)
+    import wincomm
+    wincomm.c02_options(ctx)
